@@ -38,8 +38,11 @@ extern int mpt_string_set(char **ptr, const char *data, int len)
 		*ptr = 0;
 		return 0;
 	}
-	if (data == *ptr) {
-		return 0;
+	/* new text is part of current data */
+	if ((txt = *ptr) && data >= txt && data + len <= txt + strlen(txt)) {
+		memmove(txt, data, len);
+		txt[len] = 0;
+		return len;
 	}
 	if (!(txt = realloc(*ptr, len + 1))) {
 		return MPT_ERROR(BadOperation);
